@@ -32,7 +32,8 @@ var dnsNames = []string{"A", "AAAA", "CNAME", "TXT", "HTTPS", "MX", "PTR"}
 
 var baseDomains = []string{"example.org", "google.com", "google.co.uk", "notgoogle.com", "a.com", "b.net",
 	"city.kobe.jp", "foo.kobe.jp", "x.github.io", "www.ck", "t.ck", "example.local", "sub.example.org",
-	"evil.example.org.attacker.com", "ads.example.com", "cdn1.a.com", "x-y.net", "blogspot.com", "me.blogspot.com"}
+	"evil.example.org.attacker.com", "ads.example.com", "cdn1.a.com", "x-y.net", "blogspot.com", "me.blogspot.com",
+	"localhost", "com"} // single labels: a source host without a dot, a bare TLD
 var wildDomains = []string{"google.*", "example.*", "a.*", "kobe.*", "github.*", "x.google.*"}
 var wildSuffixes = []string{"com", "co.uk", "local", "github.io", "org", "kobe.jp", "x.kobe.jp", "net", "ck", "www.ck", "blogspot.com", "de"}
 var ctagVocab = []string{"phone", "pc", "user_child", "a", "b", "zz", "device_tv", "0"}
@@ -69,7 +70,17 @@ func shuffled(t *rapid.T, label string, xs []string) []string {
 
 // hostVariant builds a host name confusable with domain d.
 func hostVariant(t *rapid.T, label string, d string) string {
-	switch rapid.IntRange(0, 9).Draw(t, label) {
+	switch rapid.IntRange(0, 11).Draw(t, label) {
+	case 10:
+		// an earlier label ends with the first label of d: mygoogle.google.com
+		first := d
+		if i := strings.IndexByte(d, '.'); i > 0 {
+			first = d[:i]
+		}
+		return "my" + first + "." + d
+	case 11:
+		// the name occurs again behind the real domain: google.com.google.com
+		return d + "." + d
 	case 0, 1:
 		return d
 	case 2:
